@@ -200,6 +200,22 @@ func checkVisitorFieldInit(r *Run, vm *VisitorModel, g *Grammar) {
 								cur = nil
 							}
 						}
+						if !complete && len(arms) == 1 {
+							// lazy initialisation: `if s.F == nil { s.F = … }` leaves F non-nil afterwards
+							if be, ok := ast.Unparen(x.Cond).(*ast.BinaryExpr); ok && be.Op == token.EQL {
+								for _, pr := range [][2]ast.Expr{{be.X, be.Y}, {be.Y, be.X}} {
+									if id, ok := ast.Unparen(pr[1]).(*ast.Ident); ok && id.Name == "nil" {
+										if fv := fieldOf(pr[0]); fv != nil {
+											if p, assigned := arms[0][fv]; assigned {
+												if _, seen := out[fv]; !seen {
+													out[fv] = p
+												}
+											}
+										}
+									}
+								}
+							}
+						}
 						if complete {
 							for fv, p := range arms[0] {
 								all := true
